@@ -145,7 +145,8 @@ def _variants(sim: str, dim: int, tier: str) -> list[str]:
         return [f"{s.name}/{r}" for s in Models.PhaseField.Get_splits() for r in ("AT1", "AT2")]
     if sim == "HyperElastic":
         laws = ["SVK", "NeoHookean"] if q else ["SVK", "NeoHookean", "MooneyRivlin"]
-        return [f"{l}/{a}" for l in laws for a in ("static", "newmark")]
+        # "active": an active fibre stress field tau (one value per element, zero in a passive region) on top of the law
+        return [f"{l}/{a}" for l in laws for a in ("static", "newmark")] + ["NeoHookean/active"]
     if sim == "InElastic":
         return (["vm_pe", "vm_ps"] if dim == 2 else ["vm"]) + ["vm_step"] + ([] if q else ["elastic_only"])
     if sim == "WeakForms":
@@ -699,6 +700,18 @@ def build_HyperElastic(case, mesh):
     mt = MatrixType.rigi
     th = 0.7 if dim == 2 else 1.0
     Egl, Spk, W_e = [], [], []
+    active = case["variant"].endswith("active")
+    if active:
+        from EasyFEA.FEM import FeArray
+
+        if len(groups) > 1:
+            return simu, None, [], 0  # (the direction field is registered for one element group)
+        g = groups[0]
+        nPg = g.Get_gauss(mt).nPg
+        That = np.array([0.6, 0.8, 0.0]) if dim == 2 else np.array([0.6, 0.0, 0.8])
+        tau = np.where(np.arange(g.Ne) % 2 == 0, 0.0, 0.4) + 0.05 * (np.arange(g.Ne) % 3 == 1)  # passive elements have tau = 0
+        mat.Set_active_stress_vec(FeArray.asfearray(np.tile(1.7 * That, (g.Ne, nPg, 1))))
+        mat.active_stress = tau
     for g in groups:
         G = grad_gauss(g, U, mt)
         F = np.eye(3) + embed3(G[..., :dim, :dim])
@@ -707,7 +720,7 @@ def build_HyperElastic(case, mesh):
         Egl.append(0.5 * (np.swapaxes(F, -1, -2) @ F - np.eye(3)))
         wJ = np.asarray(g.Get_weightedJacobian_e_pg(mt))
         if S_of is not None:
-            Spk.append(inplane(S_of(F), dim))
+            Spk.append(inplane(S_of(F) + (tau[:, None, None, None] * np.outer(That, That)[None, None] if active else 0.0), dim))
             W_e.append(th * (wJ * W_of(F)).sum(axis=1))
         else:
             st = HyperElasticState(g, u, mt)
